@@ -14,7 +14,7 @@ RULE = ("A program of NumPy-style operations over a pool of values, run on the r
         "may be non-contiguous views: row int index (negative too), row slice with step, row reversal, boolean mask, integer list, column slice, "
         "column reversal, [rows, column] where every selected row is long enough, == / != with a character, with a string of the row's length "
         "and with an equally shaped array, item assignment on a copy in the three forms the code base uses ([rows, int] = char, [int] = string of "
-        "equal length, [row slice, col slice] = ragged of equal shape), np.concatenate, copy, ravel, to_string / tolist, and strops split / join / "
+        "equal length, [row slice, col slice] = ragged of equal shape), np.concatenate, copy, ravel, construction from (and comparison with) a list of the encoded rows, to_string / tolist, and strops split / join / "
         "str_equal. A quarter of the programs run on a two-dimensional EncodedArray (rows of equal length): row and column selection by slice, mask and "
         "integer list, single cells, ravel, copy, comparison with a character, concatenation. Oracle: after every step the result decodes to the model value, the result has the operand's encoding, and assignment to a "
         "copy leaves the original equal to its model. Non-trivial: >= 2 steps where a view-producing step precedes another step, on a list "
@@ -25,7 +25,7 @@ ASSUMPTIONS = [
     "Indices are generated in range; column selections only when every selected row is long enough.",
 ]
 REQUIRED_CLASSES = ["view-then-op", "empty-row", "unequal-rows", "single-row", "setitem", "concat", "compare-array", "split-join", "negative-index",
-                    "empty-selection", "two-dimensional", "fancy-columns-then-ravel"]
+                    "empty-selection", "two-dimensional", "fancy-columns-then-ravel", "built-from-encoded-rows"]
 BOUNDS = {"quick": "1500 programs of up to 12 steps for each of 4 encodings, lists of up to 6 strings of length up to 8",
           "thorough": "12000 programs of up to 30 steps per encoding, lists of up to 12 strings of length up to 20"}
 BUDGET_S = {"quick": 200, "thorough": 1500}
@@ -137,6 +137,16 @@ def run(case, on_step=None):
                         continue
                     idx = [norm_index(k, n) for k in op["idx"]]
                     push(R[np.array(idx, dtype=int)], [M[k] for k in idx], op)
+                elif name == "from_rows":
+                    # the second way to construct: as_encoded_array of a list of encoded rows (empty rows included)
+                    if n == 0:
+                        continue
+                    rows_ = [bnp.as_encoded_array(m, enc) for m in M]
+                    push(bnp.as_encoded_array(rows_), list(M), op)
+                    if op.get("compare"):
+                        res = (R == rows_)
+                        got_b = res.tolist() if hasattr(res, "tolist") else res
+                        push(res, [[True] * len(m) for m in M], op, check_encoding=False, keep=False)
                 elif name == "col_slice":
                     sl = slice(op.get("a"), op.get("b"), op.get("s"))
                     push(R[:, sl], [m[sl] for m in M], op)
@@ -359,6 +369,8 @@ def classify(case):
         cl.append("negative-index")
     if any((op["op"] in ("row_mask", "f_mask") and not any(op["bits"])) for op in prog):
         cl.append("empty-selection")
+    if "from_rows" in names:
+        cl.append("built-from-encoded-rows")
     if case.get("matrix"):
         cl.append("two-dimensional")
         for i, op in enumerate(prog):
@@ -394,6 +406,7 @@ def op_strategy(with_matrix=False):
         st.builds(lambda s, t: {"op": "concat", "src": s, "src2": t}, src, src),
         st.builds(lambda s: {"op": "copy", "src": s}, src),
         st.builds(lambda s: {"op": "ravel", "src": s}, src),
+        st.builds(lambda s, c: {"op": "from_rows", "src": s, "compare": int(c)}, src, st.booleans()),
         st.builds(lambda s, p: {"op": "join", "src": s, "sep": p}, src, st.sampled_from([",", ";", "\t"])),
         st.builds(lambda s, i, o: {"op": "str_equal", "src": s, "i": i, "other": o}, src, st.integers(0, 20), st.sampled_from([0, 1, 2, 2])),
         st.builds(lambda s, j, c: {"op": "set_cell", "src": s, "j": j, "c": c}, src, st.integers(0, 20), st.integers(0, 25)),
